@@ -61,6 +61,32 @@ fn history_frames() -> &'static Vec<(Vec<u8>, Vec<u8>)> {
     H.get_or_init(|| vec![good_frame().clone(), (include_bytes!("history_frame.zst").to_vec(), history_text())])
 }
 
+/// Layout of a fuzzer input: [entry point][flags][rest]. For the hostile-dictionary entry point the rest is
+/// [dictionary length u16 le][dictionary][frame], otherwise the frame; `aux` is the flags byte or the dictionary.
+pub fn split_fuzz_input(entry: usize, data: &[u8]) -> (&[u8], &[u8]) {
+    if entry == 9 && data.len() >= 4 {
+        let n = (u16::from_le_bytes([data[2], data[3]]) as usize).min(data.len() - 4);
+        (&data[4..4 + n], &data[4 + n..])
+    } else {
+        (&data[1..2], &data[2..])
+    }
+}
+
+/// inverse of `split_fuzz_input` (seed corpus)
+pub fn join_fuzz_input(entry: usize, aux: &[u8], input: &[u8]) -> Vec<u8> {
+    let mut v = vec![entry as u8];
+    if entry == 9 {
+        let n = aux.len().min(65535);
+        v.push(0);
+        v.extend_from_slice(&(n as u16).to_le_bytes());
+        v.extend_from_slice(&aux[..n]);
+    } else {
+        v.push(aux.first().copied().unwrap_or(1));
+    }
+    v.extend_from_slice(input);
+    v
+}
+
 /// Drive one input through one entry point with a legal call sequence. Returns a coarse outcome class.
 /// Any panic propagates to the caller (that is the violation).
 pub fn drive(entry: usize, input: &[u8], aux: &[u8], limit_8mib: bool) -> String {
